@@ -89,3 +89,7 @@ package model
 //@ func (*Alias).GetDependencies(a) (r)
 //@   pure
 //@   ensures [actual] len(r) == 1 && r[0] == a.Actual
+
+//@ func (*Target).GetAbsOutputPath(t, output) (r)
+//@   pure
+//@   ensures [under_package] r == pathJoin(config.Global.WorkspaceRoot, pathJoin(t.Label.Package, output.Identifier))
